@@ -245,7 +245,7 @@ class Scheduler(object):
         self.timer_grants += n
 
     # ---------------------------------------------------------------- phases
-    def run_phase(self, fns, timeout=60.0):
+    def run_phase(self, fns, timeout=600.0):
         """Spawn one managed thread per (name, fn) and run until every thread is done or blocked.
         Threads left blocked stay parked for the next phase.  Returns status string."""
         global ACTIVE
@@ -284,7 +284,7 @@ class Scheduler(object):
                 t.sem.release()
         for t in self.threads:
             if t.real is not None:
-                t.real.join(5.0)
+                t.real.join(60.0)
         alive = [t for t in self.threads if t.real is not None and t.real.is_alive()]
         self._uninstall()
         ACTIVE = None
